@@ -21,10 +21,10 @@ pub struct Leaves {
     frees: Vec<Box<dyn FnOnce()>>,
 }
 impl Leaves {
-    fn new() -> Leaves {
+    pub fn new() -> Leaves {
         Leaves { dumps: vec![], frees: vec![] }
     }
-    fn dump(&self) -> Sx {
+    pub fn dump(&self) -> Sx {
         l(self.dumps.iter().map(|f| f()).collect())
     }
 }
@@ -38,7 +38,7 @@ impl Drop for Leaves {
 
 type R<T> = Result<T, Sx>;
 
-fn leaf<const D: usize>(ls: &mut Leaves, t: &Sx) -> R<&'static mut Tensor<E, D>> {
+pub fn leaf<const D: usize>(ls: &mut Leaves, t: &Sx) -> R<&'static mut Tensor<E, D>> {
     let v = t.list().ok_or_else(bad_case)?;
     if v.len() != 3 || v[0].i64() != Some(0) {
         return Err(bad_case());
@@ -110,11 +110,11 @@ fn names<const D: usize>(s: &Sx) -> R<[&'static str; D]> {
     }
     Ok(names_arr(&v))
 }
-fn s_reverse<S: TensorMut<E, D>, const D: usize>(src: S, ns: &Sx) -> R<TensorReverse<E, S, D>> {
+pub fn s_reverse<S: TensorMut<E, D>, const D: usize>(src: S, ns: &Sx) -> R<TensorReverse<E, S, D>> {
     let v: Vec<&'static str> = ns.usizes().ok_or_else(bad_case)?.iter().map(|n| dim(*n)).collect();
     guarded(|| TensorReverse::from(src, &v)).ok_or_else(panicked)
 }
-fn s_rename<S: TensorMut<E, D>, const D: usize>(src: S, ns: &Sx) -> R<TensorRename<E, S, D>> {
+pub fn s_rename<S: TensorMut<E, D>, const D: usize>(src: S, ns: &Sx) -> R<TensorRename<E, S, D>> {
     let ns = names::<D>(ns)?;
     guarded(|| TensorRename::from(src, ns)).ok_or_else(panicked)
 }
@@ -128,7 +128,7 @@ fn s_transpose<S: TensorMut<E, D>, const D: usize>(src: S, ns: &Sx) -> R<TensorT
 }
 
 /// "6(2(10(0/2,0/2)))": adaptor tags with the leaf dimensionalities
-fn skeleton(t: &Sx) -> Option<String> {
+pub fn skeleton(t: &Sx) -> Option<String> {
     let v = t.list()?;
     let tag = v.first()?.i64()?;
     Some(match tag {
